@@ -11,12 +11,17 @@
 #ifndef VS_NFD
 #define VS_NFD 6          /* descriptor slots; descriptors are VS_FD0 .. VS_FD0+VS_NFD-1, never reused */
 #endif
-#define VS_FD0 3
+#ifndef VS_FD0
+#define VS_FD0 3          /* first descriptor number handed out; -DVS_FD0=0 models a process started with stdin/stdout/stderr closed */
+#endif
 #ifndef VS_CAP
 #define VS_CAP 8          /* stream receive-queue capacity and maximum datagram payload (bytes) */
 #endif
 #ifndef VS_DQ
 #define VS_DQ 2           /* datagram queue length */
+#endif
+#ifndef VS_ROT
+#define VS_ROT 0          /* the k-th descriptor handed out is VS_FD0 + (k + VS_ROT) % VS_NFD: lets a query decide WHICH creation gets descriptor 0 */
 #endif
 #define VS_ALEN 28        /* sizeof(struct sockaddr_in6) */
 #define VS_PEND 2         /* accept queue length */
